@@ -98,6 +98,26 @@ TRUSTED_BASE = [
 ]
 
 
+def _more(*names):
+    return ["Sx.More." + n for n in names]
+
+
+_add("C12", _more("c12_size_set", "c12_size_get", "c12_size_get_zero", "c12_size_set_zero", "c12_neg_keeps", "c12_no_growth", "c12_lru",
+                  "c12_lru_compact", "c12_removed_why", "c12_idle", "c12_idle_completed", "c12_flush_first", "c12_flush_lastAccess",
+                  "c12_flush_only", "c12_purge_flush", "c12_failed_flush_aborts", "c12_sweep_failed_stays", "c12_evictLoop_failed_stays",
+                  "step_bounded", "step_insert_bounded", "c12_bounded_all_histories", "c12_size_set_needs_case"))
+_add("C03", _more("c12_flush_lastAccess", "c12_flush_first", "c12_purge_flush"))
+_add("C10", _more("regenerate_prefix_safe", "regenerate_prefix_safe_nofail", "regenerate_prefix_safe_cached", "startValid_rotation_prefix_safe",
+                  "start_rotation_prefix_safe", "start_rotation_prefix_safe_nofail", "hlogin_prefix_safe", "hlogin_prefix_safe_cached",
+                  "swapped_saves_dangle", "real_saves_safe", "crashStore_apiMid"))
+_add("C05", _more("c05_chain_resolves", "follow_fuel_enough", "c05_backstop", "c05_backstop_start", "c05_backstop_stored", "c05_backstop_invalid",
+                  "c05_cleanup_fireDue", "c05_cleanup_advance", "c05_regenerate_timer", "c05_gone_after_grace", "c05_timers_all_histories",
+                  "c05_no_overdue_reference", "c05_reference_age_lt", "i3_all_histories", "i3_acyclic", "step_inv3"))
+_add("C01", _more("c05_chain_resolves", "i3_all_histories", "c12_flush_first"))
+_add("C07", _more("c05_backstop_invalid", "c05_cleanup_advance"))
+_add("C18", _more("c05_chain_resolves"))
+
+
 # Theorems about facts REGENERATED from the source on every run (module to build, theorem names), per property.
 FACT_OBLIGATIONS = {
     "C02": [("Sessions.FactsBracketStart", ["FactsBrackets.start_looks_up_only_24"])],
